@@ -133,6 +133,7 @@ def check_all(trace, props=("C07", "C08", "C09", "C11", "C12", "C13", "C17")):
                 m = check_composite(st, root, Fr(0), 0)
                 if m:
                     fails["C12"].append({"leg": 0, "msg": "initial composite object %r: %s" % (root, m)})
+    pending_instates = {}
     now = Fr(0)
     speed0 = None
     started = False
@@ -215,6 +216,23 @@ def check_all(trace, props=("C07", "C08", "C09", "C11", "C12", "C13", "C17")):
         st.apply(leg["delta"])
         if kind == "start_of_run":
             started = True
+        if "C08" in props:
+            # pending in-states: registered when a handler is started, dropped when it is trashed; after the commit
+            # every SURVIVING interaction / cell-veto event must still see its units on an unchanged trajectory
+            for hs, units in (leg.get("instates") or {}).items():
+                if units is not None and handler_kind(meta, int(hs)) in ("interaction", "cell_veto"):
+                    pending_instates[int(hs)] = units
+            for h in leg.get("trash") or []:
+                pending_instates.pop(h, None)
+            changed = {tuple(u["id"]) for u in leg["delta"] or []}
+            for h, units in pending_instates.items():
+                for iu in units:
+                    if tuple(iu["id"]) in changed:
+                        m = same_trajectory(st, st.units[tuple(iu["id"])], iu, T)
+                        if m:
+                            fails["C08"].append({"leg": n, "msg": "candidate of %s survives in the scheduler although "
+                                                 "the %s event changed the motion of its unit %r: %s"
+                                                 % (meta["handlers"][h]["class"], kind, iu["id"], m)})
         # ---------------- C07 (b): continuity of every changed unit; inactive units do not move
         if "C07" in props:
             for u in leg["delta"] or []:
@@ -418,6 +436,14 @@ def check_occupancy(st, meta, si, occ, leg, prev_leg, stats):
         if not ids:
             msgs.append("empty surplus list stored for cell %s" % cell)
     active = tuple(occ["active_id"]) if occ["active_id"] is not None else None
+    cname = ist.get("charge_name")
+    if ist.get("charge_known"):
+        # the relevant units, determined independently of the implementation's filter
+        expect = sorted(k for k, u in st.units.items() if len(k) == level and
+                        (cname is None or ((u.get("charge") or {}).get(cname, 0) & 0x7FFFFFFFFFFFFFFF) != 0))
+        got = sorted(tuple(r) for r in occ["relevant"])
+        if expect != got:
+            msgs.append("charge filter: relevant units %r but units with non-zero %s are %r" % (got[:6], cname, expect[:6]))
     for rid in occ["relevant"]:
         k = tuple(rid)
         stats["c11_units"] += 1
